@@ -564,6 +564,7 @@ pub fn check(ctx: &Ctx, rep: &mut Report) {
         if !ctx.wants(n) {
             continue;
         }
+        crate::apply::set_route_seed(ctx.seed ^ n.wrapping_mul(0x9E3779B97F4A7C15));
         let mut rng = ctx.rng("rand", r);
         let len = 5 + rng.below(8);
         let seq: Vec<Call> = (0..len).map(|_| ks[rng.below(ks.len())]).collect();
